@@ -56,9 +56,18 @@ pub fn universe() -> Vec<Contributor> {
     let ab = |v: &str| -> String {
         format!(
             r#"package a:b@{v};
-interface i {{ record r {{ a: u32 }} f: func(); {} }}
+interface i {{ record r {{ a: u32 }} record s {{ b: u8 }} f: func(); {} }}
 world w {{ import i; }}"#,
             if v == "0.2.1" { "g: func();" } else { "" }
+        )
+    };
+    // the same interface name and track, but it also uses a second type of `i` (a `use` only one
+    // contributor has)
+    let cd2 = |v: &str, uses: &str| -> String {
+        format!(
+            r#"package c:d@{v};
+interface j {{ use a:b/i@{uses}.{{r, s}}; h: func(x: r); k: func(y: s) -> r; }}
+world w {{ import j; }}"#
         )
     };
     let cd = |v: &str, uses: &str| -> String {
@@ -102,6 +111,7 @@ world w {{ import j; }}"#
         from_wit("wit j@1.0.0 uses i@0.2.0", &[("ab.wit", &ab("0.2.0")), ("cd.wit", &cd("1.0.0", "0.2.0"))], "w"),
         from_wit("wit j@1.1.0 uses i@0.2.1", &[("ab.wit", &ab("0.2.1")), ("cd.wit", &cd("1.1.0", "0.2.1"))], "w"),
         from_wit("wit j@1.2.0 uses i@0.3.0", &[("ab.wit", &ab("0.3.0")), ("cd.wit", &cd("1.2.0", "0.3.0"))], "w"),
+        from_wit("wit j@1.0.1 uses i@0.2.0 {r,s}", &[("ab.wit", &ab("0.2.0")), ("cd.wit", &cd2("1.0.1", "0.2.0"))], "w"),
     ]
 }
 
